@@ -198,6 +198,17 @@ pub fn judge(ctx: &mut Ctx, m: &MSym, perms: &[Vec<usize>], k: usize) {
 
 pub fn run(cfg: &Cfg) -> Report {
     let mut report = Report::new(cfg);
+    // out-of-domain calls between judged cases: the 2D routines on a 3D and on a 1D symbol
+    crate::monitor::set_poison(|k| {
+        let t = ["<1.1:1 3:1,1,1,1:4,3,4>", "<1.1:1 1:1,1:4>"][(k % 2) as usize];
+        if let Ok(ds) = t.parse::<rust_dsymbols::dsyms::PartialDSym>() {
+            if k % 4 < 2 {
+                let _ = orbifold_symbol(&ds);
+            } else {
+                let _ = curvature(&ds);
+            }
+        }
+    });
     let seed = cfg.seed;
     let (nmax, vmax) = cfg.tier.pick((5, 5), (6, 5));
     let mut symbols: Vec<MSym> = vec![];
@@ -222,6 +233,22 @@ pub fn run(cfg: &Cfg) -> Report {
     for (_, s) in gen::structured_2d_sets() {
         for _ in 0..cfg.tier.pick(3, 20) {
             symbols.push(gen::random_branching(&mut rng0, &s, &[1, 1, 1, 2, 3, 10, 11, 99, 100, 101]));
+        }
+    }
+    // mirror polygons with many corners: a strip (op2 = identity) has one boundary component with n/2 + 2
+    // corner points; corner orders 2..9 (single digits) and mixed with two-digit ones, 20-60 corners. The
+    // canonical rotation / reflection of such a long boundary word is where a shortcut can go wrong.
+    for n in cfg.tier.pick(vec![36usize, 40, 44, 48, 64], vec![20, 30, 36, 38, 40, 42, 44, 48, 56, 64, 80, 120]) {
+        for t in 0..cfg.tier.pick(4, 12) {
+            let mut x = gen::strip_2d(n, false);
+            let pool: &[usize] = if t % 2 == 0 { &[2, 3, 4, 5, 6, 7, 8, 9] } else { &[1, 2, 3, 9, 10, 12] };
+            for (i, _, members, _) in gen::adjacent_orbits(&x.clone()) {
+                let v = if i == 0 { 1 + rng0.below(3) } else { *rng0.pick(pool) };
+                for e in members {
+                    x.v[i][e] = v;
+                }
+            }
+            symbols.push(x);
         }
     }
     for s in gen::connected_sets_upto(2, 3) {
